@@ -14,7 +14,7 @@ PID = "C16"
 LEAN_MODULES = ["Astm.Proofs.C16"]
 THEOREMS = [
     "Astm.C16.inv_init", "Astm.C16.inv_step", "Astm.C16.inv_run", "Astm.C16.distinct_files_exact_bytes",
-    "Astm.C16.example_same_second",
+    "Astm.C16.every_delivery_reaches_a_writer", "Astm.C16.example_same_second",
 ]
 RULE = ("bursts of 1-12 messages (bytes and str payloads incl. non-ASCII text, equal payloads, empty payload) stored with a "
         "scripted clock (all in one second / spread over 2-3 seconds / clock stepping back), with and without "
@@ -350,6 +350,10 @@ def run(ctx):
         shutil.rmtree(tmp, ignore_errors=True)
     streams.append(lc)
 
+    # a store that fails half-way (file size limit / disk full) must not cost any other message its file:
+    # "an existing file is never overwritten or truncated" - nor removed
+    streams.append(write_fault_stream(ctx, r))
+
     # the path a message takes in the server before it is stored: queue -> consumer task -> dispatch closure ->
     # to_thread(write_message).  server.main() in-process (harness/servermain.py), sessions ending at the same instant
     from harness.props import C14
@@ -388,6 +392,31 @@ def run(ctx):
             sd.fail(dict(case, files=len(files)), "%d sessions with (partly identical) payloads were completed, %d files exist "
                     "/ their contents differ" % (len(expected), len(files)), "in-process/identical-payloads")
         shutil.rmtree(tmp, ignore_errors=True)
+    # many instruments finishing within the same turn of the event loop (a rack of analysers flushing at a common
+    # trigger): every one of the N transfers is archived
+    for i in range(6 if ctx.thorough else 2):
+        tmp = tempfile.mkdtemp(prefix="astm-c16b-")
+        outdir = os.path.join(tmp, "out")
+        os.makedirs(outdir)
+        k = r.choice([40, 48, 70, 130]) if i else 48
+        plan, expected = [], []
+        for c in range(k):
+            fr = gens.frame(1, b"H|\\^&|||rack-%d\rR|1|^^^GLU|%d.5\rL|1|N" % (c, c), True)
+            plan.append((0, c, ("open",)))
+            plan.append((1, c, ("data", gens.ENQ)))
+            plan.append((2, c, ("data", fr)))
+            plan.append((5, c, ("data", gens.EOT)))
+            expected.append(fr)
+        res = servermain.run_server_main(["-o", outdir, "-m", "astm"], sorted(plan, key=lambda x: x[0]), settle=2)
+        files = sorted(open(os.path.join(outdir, fn), "rb").read() for fn in os.listdir(outdir))
+        case = {"connections": k, "sessions": k, "all_eot_at_the_same_instant": True}
+        sd.case(case, nontrivial=True)
+        sd.count("simultaneous-%d" % k)
+        if files != sorted(expected):
+            sd.fail(dict(case, files=len(files), errors=[repr(e)[:80] for e in res.get("errors", [])][:3]),
+                    "%d transfers were completed in the same turn of the event loop, %d files exist / their contents differ"
+                    % (k, len(files)), "in-process/simultaneous-completions")
+        shutil.rmtree(tmp, ignore_errors=True)
     streams.append(sd)
 
     # (last: a change that holds a lock across a file-system call leaves that lock held when the nested pre-emption is
@@ -422,6 +451,85 @@ def run(ctx):
     streams.append(p)
 
     return streams
+
+
+def write_fault_stream(ctx, r):
+    """Stores within one clock second of which one fails while writing (RLIMIT_FSIZE makes the kernel refuse the write
+    with EFBIG whatever API the code uses).  The files of all other messages, stored before and after the failing one,
+    exist with exactly their bytes; files that were there before are untouched."""
+    import resource
+    from senaite.astm import utils
+    wf = Stream("write-fault")
+    soft, hard = resource.getrlimit(resource.RLIMIT_FSIZE)
+    LIMIT = 4096
+    for _ in range(120 if ctx.thorough else 20):
+        tmp = tempfile.mkdtemp(prefix="astm-c16f-")
+        d = os.path.join(tmp, "out")
+        os.makedirs(d)
+        n = r.choice([2, 3, 4, 6])
+        fail_at = r.randrange(n)
+        msgs = []
+        for i in range(n):
+            if i == fail_at:
+                msgs.append(bytes([65 + i]) * r.choice([LIMIT + 1, 20000, 70000]))
+            else:
+                msgs.append(r.choice([b"ok-%d" % i, "text-%d-\u00e9" % i, b"same"]))
+        pre = {}
+        if r.random() < 0.4:
+            fn = name_of(BASE, r.choice([0, 1]))
+            with open(os.path.join(d, fn), "wb") as fh:
+                fh.write(b"old")
+            pre[fn] = b"old"
+        FakeDateTime.script = [BASE]
+        orig_dt = utils.datetime
+        utils.datetime = FakeDateTime
+        raised, other_err = [], None
+        try:
+            for i, m in enumerate(msgs):
+                try:
+                    if i == fail_at:
+                        resource.setrlimit(resource.RLIMIT_FSIZE, (LIMIT, hard))
+                    try:
+                        utils.write_message(m, d)
+                    finally:
+                        resource.setrlimit(resource.RLIMIT_FSIZE, (soft, hard))
+                except OSError as e:
+                    raised.append(i)
+                except Exception as e:  # noqa
+                    other_err = repr(e)
+        finally:
+            resource.setrlimit(resource.RLIMIT_FSIZE, (soft, hard))
+            utils.datetime = orig_dt
+        after = listing(d)
+        case = {"messages": [hexb(payload_bytes(m)[:16]) + ("..x%d" % len(payload_bytes(m)) if len(payload_bytes(m)) > 16 else "")
+                             for m in msgs], "failing_store": fail_at, "pre_existing": sorted(pre)}
+        wf.case(case, nontrivial=fail_at > 0 or bool(pre))
+        wf.count("fault-raised" if raised == [fail_at] else "fault-not-raised")
+        good = [payload_bytes(m) for i, m in enumerate(msgs) if i != fail_at]
+        contents = sorted(after.values())
+        bad = None
+        if other_err or [i for i in raised if i != fail_at]:
+            bad = ("raises", "a store next to a failing one raised (%s)" % (other_err or "OSError"))
+        else:
+            for fn, c in pre.items():
+                if after.get(fn) != c:
+                    bad = ("old-file", "the file %s that existed before is %s after a failing store" % (
+                        fn, "gone" if fn not in after else "changed"))
+            rest = list(contents)
+            for c in pre.values():
+                if c in rest:
+                    rest.remove(c)
+            for g in good:
+                if g in rest:
+                    rest.remove(g)
+                elif bad is None:
+                    bad = ("lost", "a message stored in the same second as a failing store has no file with its bytes")
+            if bad is None and len(rest) > 1:
+                bad = ("stray", "%d files beyond the stored messages and the one of the failing store" % len(rest))
+        if bad:
+            wf.fail(dict(case, listing={k: len(v) for k, v in after.items()}), bad[1], "write-fault/" + bad[0])
+        shutil.rmtree(tmp, ignore_errors=True)
+    return wf
 
 
 def search(ctx, disagreements):
